@@ -30,6 +30,7 @@ def handle (st : DState) (line : String) : DState × String :=
     match fields rest with
     | ["structural", a, b] =>
       (st, if Cert.structural st.dump.grammar st.dump.table (natOf a) (natOf b) then "1" else "0")
+    | ["noshiftstop"] => (st, if Cert.noShiftStop st.dump.table then "1" else "0")
     | _ => (st, "bad-request")
   | "regen" => (st, Rustemo.Regen.handleRegen rest)
   | "rawdet" => (st, if st.dump.table.rawDeterministic st.dump.grammar then "1" else "0")
